@@ -1,6 +1,31 @@
-// placeholder (C08 adapter, compiled once per library build)
-#include <string>
-#define CAT2(a,b) a##b
-#define CAT(a,b) CAT2(a,b)
-#define FN(name) CAT(PFX,name)
-int FN(placeholder)() { return 0; }
+// nifsim — C08 adapter, compiled once per library build: PFX=cur_ against the working tree (namespace nifly,
+// harness namespace sim) and PFX=ref_ against the vendored pinned tree (-Dnifly=nifly_ref -Dsim=sim_ref).
+// Only std::string crosses the boundary between the two builds.
+#include "sim.hpp"
+#define CAT2(a, b) a##b
+#define CAT(a, b) CAT2(a, b)
+#define FN(name) CAT(PFX, name)
+
+namespace sim {
+bool synthInitial(const json& spec, NifFile& nif, Ctx& ctx, std::string* fileBytes);
+}
+
+// load + raw save by this build; rc = Load's return code; consumed = bytes the loader read
+std::string FN(roundtrip)(const std::string& in, int* rc, long* consumed) {
+	nifly::NifFile n;
+	sim::LoadOut lo = sim::loadNif(n, in);
+	*rc = lo.rc;
+	*consumed = long(lo.consumed);
+	if (lo.rc != 0) return std::string();
+	return sim::saveNif(n, sim::SaveSpec()).bytes;
+}
+
+// file synthesised by this build's own Get() (typed generator); empty if this build does not accept it
+std::string FN(synth)(const std::string& specJson) {
+	sim::json spec = sim::json::parse(specJson);
+	sim::Ctx ctx;
+	nifly::NifFile n;
+	std::string bytes;
+	if (!sim::synthInitial(spec, n, ctx, &bytes)) return std::string();
+	return bytes;
+}
